@@ -137,9 +137,13 @@ def get_operation_count(layer, input_shape):
 
     output_shape = layer.compute_output_shape(input_shape)
     channels_o = output_shape[-1]
+    # a pooling window is evaluated at every output position; global pooling
+    # has a single one
+    positions_o = np.prod(output_shape[1:-1]) if hasattr(
+        layer, "pool_size") else 1
 
     # total number of add ops
-    operation_count = channels_o * add_ops
+    operation_count = positions_o * channels_o * add_ops
 
   elif "UpSampling" in layer.__class__.__name__:
     # UpSampling1D/2D/3D
@@ -163,8 +167,10 @@ def get_operation_count(layer, input_shape):
 
     kernel_h, kernel_w, _, _ = weight.shape
 
+    # each output channel only sees the input channels of its group
     operation_count = (
-        height_o * width_o * channels_o * kernel_h * kernel_w * channels_i)
+        height_o * width_o * channels_o * kernel_h * kernel_w *
+        (channels_i // getattr(layer, "groups", 1)))
 
   elif layer.__class__.__name__ in ["QConv1D", "Conv1D"]:
     output_shape = layer.compute_output_shape(input_shape)
@@ -177,7 +183,8 @@ def get_operation_count(layer, input_shape):
     kernel_length, _, _ = weight.shape
 
     operation_count = (
-        time_o * channels_o * kernel_length * channels_i)
+        time_o * channels_o * kernel_length *
+        (channels_i // getattr(layer, "groups", 1)))
 
   elif layer.__class__.__name__ in ["QDepthwiseConv2D", "DepthwiseConv2D"]:
     output_shape = layer.compute_output_shape(input_shape)
@@ -189,8 +196,9 @@ def get_operation_count(layer, input_shape):
 
     kernel_h, kernel_w, _, _ = weight_1.shape
 
+    # channels_o = channels_i * depth_multiplier
     operation_count = (
-        kernel_h * kernel_w * height_o * width_o * channels_i)
+        kernel_h * kernel_w * height_o * width_o * channels_o)
 
   elif layer.__class__.__name__ in ["QDense", "Dense"]:
     output_shape = layer.compute_output_shape(input_shape)
